@@ -9,5 +9,6 @@ CONSTANTS
   EstOf <- EstZero
   WithConsumer = FALSE
   WithSweeper = TRUE
+  KeepHist = FALSE
 INVARIANT NotD13
 CHECK_DEADLOCK FALSE
